@@ -1,6 +1,6 @@
 (* C01 — data values are inert.  Theorems only. *)
 From V Require Import Base.Bytes Base.Val Model.Stack Model.Escape Model.Interp Model.Tok
-  Proofs.EscapeP Proofs.TokP Proofs.InterpP Model.Hole Proofs.HoleP.
+  Proofs.EscapeP Proofs.TokP Proofs.InterpP Model.Hole Proofs.HoleP Model.Rcdata Proofs.RcdataP.
 
 (* 1. an escaped string in the data state produces no tag: the tokenizer stays in Data and only
       accumulates character data - for ALL byte strings *)
@@ -63,3 +63,20 @@ Proof. split; [reflexivity|exact inert_case]. Qed.
 Example C01_hole_inspection_reported :
   eval [([], [TIf 8 [] []])] 5 CNone [(1, VHole true)] (TInclude 0 [PStatic 8 [Lit [x66]; Var 1]] []) = ErrInspect.
 Proof. exact inspected_mixed. Qed.
+
+(* 8. sinks inside <textarea> and <title> (RCDATA: the tokenizer looks for nothing but the element's own end tag,
+      in any letter case): the serialised text - static neighbours and value - is read back as exactly that text and
+      the element ends at its own end tag, nowhere earlier; so a value there can contribute characters only *)
+Theorem C01_rcdata_value_inert : forall tag a v b rest,
+  rc_text tag (escape (a ++ v ++ b) ++ close_tag tag ++ rest) = a ++ v ++ b /\
+  snd (rc_split tag (escape (a ++ v ++ b) ++ close_tag tag ++ rest)) = Some (close_tag tag ++ rest).
+Proof. exact rc_value_between_neighbours. Qed.
+Print Assumptions C01_rcdata_value_inert.
+Theorem C01_rcdata_no_lt_no_end : forall tag s, ~ In x3c s -> rc_split tag s = (s, None).
+Proof. exact rc_no_lt. Qed.
+Print Assumptions C01_rcdata_no_lt_no_end.
+(* the twin that writes such text unescaped (as script and style bodies are written) is refuted: a value ends the element *)
+Theorem C01_rcdata_raw_text_refuted : exists tag v,
+  fst (rc_split tag (v ++ close_tag tag)) <> v /\ rc_text tag (escape v ++ close_tag tag) = v.
+Proof. exact rc_raw_text_breaks_out. Qed.
+Print Assumptions C01_rcdata_raw_text_refuted.
